@@ -3,7 +3,7 @@ From Coq Require Import String Ascii.
 From Coq Require Import ZArith NArith Bool List Lia Eqdep_dec.
 Import ListNotations.
 From Flocq Require Import IEEE754.BinarySingleNaN.
-Require Import FV.Base.Util FV.Base.F64 FV.Base.PyVal FV.C01.Model FV.Gen.C03 FV.C03.Model.
+Require Import FV.Base.Util FV.Base.F64 FV.Base.PyVal FV.C01.Model FV.C01.Lemmas FV.Gen.C03 FV.C03.Model.
 
 (* ------------------------------------------------------------------ induction over described types *)
 Lemma xt_ind2 (P : xt -> Prop)
@@ -46,13 +46,6 @@ Fixpoint depth (x : xt) : nat :=
   | _ => 1
   end.
 
-Lemma str_eqb_refl (a : str) : str_eqb a a = true.
-Proof. induction a as [|c a IH]; [reflexivity|]. cbn. rewrite N.eqb_refl. exact IH. Qed.
-Lemma str_eqb_eq (a b : str) : str_eqb a b = true -> a = b.
-Proof.
-  revert b. induction a as [|c a IH]; destruct b as [|d b]; cbn; try discriminate; [reflexivity|].
-  intros H. apply andb_true_iff in H as [H1 H2]. apply N.eqb_eq in H1. subst. f_equal. apply IH, H2.
-Qed.
 Lemma mem_str_app k l1 l2 : mem_str k (l1 ++ l2) = mem_str k l1 || mem_str k l2.
 Proof. induction l1 as [|x l1 IH]; [reflexivity|]. cbn. rewrite IH. apply orb_assoc. Qed.
 Lemma incl_str_refl l : incl_str l l = true.
@@ -157,35 +150,10 @@ Proof. destruct b; try contradiction. intros _. apply feq_finite_eq. Qed.
 
 Lemma feq_zero_fix (a : f64) : feq a fzero = true -> fixf pv_float0 a -> a = fzero.
 Proof.
-  intros H F. destruct a as [[|]|[|]| |[|] m e B]; try (cbv in H; discriminate); try reflexivity.
+  intros H F. destruct a as [[|]|[|]| |[|] m e B]; try (cbv in H; discriminate H); try reflexivity.
+  vm_compute in F. discriminate F.
 Qed.
 
 Lemma scale_is_finite (s : f64) : fixf pv_scale s -> match s with B754_finite _ _ _ _ => True | _ => False end.
-Proof. destruct s as [[|]|[|]| |]; intros H; try exact I; vm_compute in H; discriminate. Qed.
+Proof. destruct s as [[|]|[|]| |]; intros H; try exact I; vm_compute in H; discriminate H. Qed.
 
-(* evaluation of the table lookups on a concrete description (values stay symbolic) *)
-Ltac ev_lookup :=
-  repeat match goal with
-  | |- context [split_json ?j] => let t := eval vm_compute in (split_json j) in change (split_json j) with t
-  | |- context [bind_ok ?a ?b] => let t := eval vm_compute in (bind_ok a b) in change (bind_ok a b) with t
-  | |- context [arg ?a ?b ?c] => let t := eval vm_compute in (arg a b c) in change (arg a b c) with t
-  | |- context [arg_pos ?a ?b ?c] => let t := eval vm_compute in (arg_pos a b c) in change (arg_pos a b c) with t
-  | |- context [farg ?a ?b ?c] => let t := eval vm_compute in (farg a b c) in change (farg a b c) with t
-  end.
-
-Ltac leaf_step ty :=
-  cbn [get_dt]; ev_lookup; cbn [bind negb];
-  match goal with |- context [leaf_of ?p ?t ?kw] =>
-    let r := eval cbv beta iota delta [leaf_of] in (leaf_of p t kw) in
-    let r' := eval cbn [str_eqb list_eqb N.eqb Pos.eqb andb s2l N_of_ascii N_of_digits] in r in idtac
-  end.
-
-Lemma rebuild_int fuel p mn mx : wfx (XInt mn mx) ->
-  get_dt (S fuel) p (PDict [($"max", PInt mx); ($"min", PInt mn); ($"type", PStr $"int")]) = Ok (Some (XInt mn mx)).
-Proof.
-  intros (Hmn & Hmx & Hle). cbn [get_dt]. ev_lookup. cbn [bind negb].
-  change (leaf_of p $"int" [($"max", PInt mx); ($"min", PInt mn)])
-    with (Some (mk_int (arg $"int" $"min" [($"max", PInt mx); ($"min", PInt mn)])
-                       (arg $"int" $"max" [($"max", PInt mx); ($"min", PInt mn)]))).
-  ev_lookup. unfold mk_int, some_xt. rewrite Hmn, Hmx. cbn [as_z bind]. rewrite Hle. reflexivity.
-Qed.
